@@ -214,13 +214,18 @@ CalImageOk(f, t) ==
     /\ LET b == CalBandOf(f) IN
        IF b = {} THEN TRUE ELSE LET band == CalBands[CHOOSE i \in b : TRUE] IN <<t[1][2], t[1][3]>> = <<band[3], band[4]>>
 
+\* start-up: a = <<sync word, use DC-DC, TCXO voltage code or -1>>.  The ClearDeviceErrors transaction of the TCXO branch is
+\* compared up to surplus trailing NOPs (Sx126xWire!IsClearDeviceErrors): it is replaced by the data sheet frame first.
+NormClearErrors(t) == [i \in 1..Len(t) |-> IF IsClearDeviceErrors(t[i]) THEN ClearDeviceErrors[1] ELSE t[i]]
 Init126(e, c) ==
     LET sw == c.a[1]
         l0 == RetentionList(c)
         addsGain == ~RetentionHas(l0, RegRxGain) /\ l0[1] < 4
         l1 == IF addsGain THEN RetentionAdded(l0, RegRxGain) ELSE l0
         dio2 == e.chip \in {"sx1261", "sx1262"}
-    IN (IF dio2 THEN SetDio2AsRfSwitchCtrl(1) ELSE <<>>)
+    IN (IF c.a[2] = 1 THEN SetRegulatorMode(1) ELSE <<>>)
+       \o (IF dio2 THEN SetDio2AsRfSwitchCtrl(1) ELSE <<>>)
+       \o (IF c.a[3] >= 0 THEN ClearDeviceErrors \o SetDio3AsTcxoCtrl(c.a[3], TcxoDelay10ms) \o Calibrate(CalibrateAll) ELSE <<>>)
        \o SetPacketType(1) \o SetLoRaSyncWord16(sw) \o SetBufferBaseAddress(0, 0)
        \o AddToRetentionList(l0, RegRxGain)
        \o (IF l0[1] >= 4 /\ ~RetentionHas(l0, RegRxGain) THEN <<>> ELSE AddToRetentionList(l1, RegTxModulation))
@@ -261,7 +266,11 @@ Wire126LoraPhy(e, c) ==
       [] e.op = "fetch" -> ResOk(e, c) /\ Exp("GetRxBufferStatus (+ length register) + ReadBuffer", e, c, FetchTxns(a[1], a[2], a[3], a[4]))
       [] e.op = "init" -> Chk(<<"wire result (a full retention list is an error)", e.drv, e.chip, e.op, c.a, c.p>>,
                               IF Init126Fails(c) THEN "err" ELSE "ok", c.res)
-                          /\ Exp("start-up sequence", e, c, Init126(e, c))
+                          /\ Chk(<<"wire", e.drv, e.chip, e.op, "start-up sequence (regulator, DIO2, TCXO + calibration, packet type, sync word, buffer base, retention list)",
+                                    "args", c.a, "prior", c.p>>, Init126(e, c), NormClearErrors(c.t))
+                          /\ (IF c.a[3] >= 0 /\ \E i \in 1..Len(c.t) : IsClearDeviceErrors(c.t[i]) /\ c.t[i] # ClearDeviceErrors[1]
+                              THEN PrintT(<<"INFO", l, "ClearDeviceErrors clocked with surplus trailing NOPs", e.chip,
+                                            c.t[CHOOSE i \in 1..Len(c.t) : IsClearDeviceErrors(c.t[i])]>>) ELSE TRUE)
       [] OTHER -> Chk(<<"wire: operation unknown for lora-phy", e.chip>>, "", e.op)
 
 \* The reference's functions; a rejected reference trace is a defect of the specification (tool error in the runner)
@@ -301,6 +310,10 @@ Wire126Reference(e, c) ==
       [] e.op = "dio2_rf_switch" -> Exp("SetDio2AsRfSwitchCtrl", e, c, SetDio2AsRfSwitchCtrl(a[1]))
       [] e.op = "pkt_type" -> Exp("SetPacketType", e, c, SetPacketType(a[1]))
       [] e.op = "retention_add" -> Exp("retention list", e, c, AddToRetentionList(RetentionList(c), a[1]))
+      [] e.op = "reg_mode" -> Exp("SetRegulatorMode", e, c, SetRegulatorMode(a[1]))
+      [] e.op = "clear_device_errors" -> Exp("ClearDeviceErrors", e, c, ClearDeviceErrors)
+      [] e.op = "tcxo_ctrl" -> Exp("SetDio3AsTcxoCtrl", e, c, SetDio3AsTcxoCtrl(a[1], a[2]))
+      [] e.op = "calibrate" -> Exp("Calibrate", e, c, Calibrate(a[1]))
       [] OTHER -> Chk(<<"wire: operation unknown for the reference", e.chip>>, "", e.op)
 
 \* the 16-bit sync word form of lora-phy lands on the bytes the reference writes on a chip holding the reset nibbles
